@@ -128,7 +128,7 @@ def build(data):
         kind, txt = g.pick(UNITS)
         prefix.append([kind, txt.replace("{N}", str(i))])
     return {"prefix": prefix, "shape": g.pick(["single", "include", "inherit", "nsdef", "chain", "single", "include-deep", "ccall-body"]),
-            "path": g.pick(["put_string", "files", "moddir", "moddir-reload"]), "k": g.int(0, 2),
+            "path": g.pick(["put_string", "files", "moddir", "moddir-reload", "moddir-relocated"]), "k": g.int(0, 2),
             "outer_pad": g.int(0, 4)}
 
 
@@ -182,7 +182,7 @@ def make_set(subject, rkind):
     raise AssertionError(shape)
 
 
-def make_lookup(T, path, d, **kw):
+def make_lookup(T, path, d, mod=None, age=0, **kw):
     from mako.lookup import TemplateLookup
 
     kw.setdefault("imports", ["from vf.props.c12 import boom, badfilter"])
@@ -198,10 +198,13 @@ def make_lookup(T, path, d, **kw):
         os.makedirs(os.path.dirname(p), exist_ok=True)
         with open(p, "wb") as fh:
             fh.write(s.encode("utf-8"))
+        if age:
+            st_ = os.stat(p)
+            os.utime(p, (st_.st_atime - age, st_.st_mtime - age))
         names[u] = p
     if path == "files":
         return TemplateLookup(directories=[root], **kw), names
-    mod = os.path.join(d, "mod")
+    mod = mod or os.path.join(d, "mod")
     lk = TemplateLookup(directories=[root], module_directory=mod, **kw)
     return lk, names
 
@@ -227,7 +230,18 @@ def check_traceback(case, ev=None):
     ctx = {"boom": boom, "badfilter": badfilter}
     shown = "\n".join("--- %s ---\n%s" % kv for kv in T2.items())
     with core.TempDir() as d:
-        lk, names = make_lookup(T2, subject["path"], d)
+        if subject["path"] == "moddir-relocated":
+            # the template tree was moved while the module directory was kept: up-to-date module files generated from
+            # other files are found under the same URIs and are regenerated on the _template_filename mismatch
+            os.makedirs(os.path.join(d, "A"))
+            lkA, _ = make_lookup(T2, "moddir", os.path.join(d, "A"), mod=os.path.join(d, "mod"))
+            try:
+                lkA.get_template(entry).render_unicode(**ctx)
+            except Boom:
+                pass
+            lk, names = make_lookup(T2, "moddir", d, age=100)
+        else:
+            lk, names = make_lookup(T2, subject["path"], d)
         if subject["path"] == "moddir-reload":
             try:
                 lk.get_template(entry).render_unicode(**ctx)
@@ -363,6 +377,20 @@ def check_warning(case, ev=None):
         else:
             efile = fn
             go = lambda: Template(filename=fn, module_directory=os.path.join(d, "mod"))
+            if path == "moddir-relocated":
+                # an up-to-date module file generated from ANOTHER file served under this uri is in place
+                fn_old = os.path.join(d, "old_w%d.mako" % k)
+                with open(fn_old, "wb") as fh:
+                    fh.write(src.encode("utf-8"))
+                st_ = os.stat(fn)
+                os.utime(fn, (st_.st_atime - 100, st_.st_mtime - 100))
+                go = lambda: Template(filename=fn, module_directory=os.path.join(d, "mod"), uri=uri)
+                with warnings.catch_warnings(record=True):
+                    warnings.simplefilter("ignore")
+                    try:
+                        Template(filename=fn_old, module_directory=os.path.join(d, "mod"), uri=uri)
+                    except Exception:
+                        pass
             if path == "moddir-reload":
                 # the module file already exists and is up to date (a restarted application): load it once unobserved
                 with warnings.catch_warnings(record=True):
@@ -420,7 +448,7 @@ def run_subject(subject, ev, fails):
             fails.setdefault(f.key, f)
     for i, wkind in enumerate(WARNERS):
         action = ["always", "default", "once", "module", "error"][(n + i) % 5]
-        if action == "error" and (wkind == "is-literal" or subject["path"] == "moddir-reload"):
+        if action == "error" and (wkind == "is-literal" or subject["path"] in ("moddir-reload", "moddir-relocated")):
             # this warning comes from the code generator of CPython, i.e. only when the whole module is compiled; what an
             # error filter does then is not covered by the statement (nothing is "shown")
             action = "always"
